@@ -322,6 +322,10 @@ class Run:
         self.af_count = 0
         self.dropped_in_loss = set()
         self.loss_thresholds = None
+        self.lose_inside = set()
+        self.fx_signal = 0
+        self.signal_loses = False
+        self.stat_inside = None
         self.cancelled_in_loss = set()
 
     # -- helpers ---------------------------------------------------------------------------------------------
@@ -412,8 +416,18 @@ class Run:
                 self.fx.append('crash')
                 self.unexpected.append(repr(exc))
             self.lose(self.M.Failure(exc))
-        elif self.transport.disconnecting:
+        elif self.transport.disconnecting and not self.closed:
             self.lose(self.M.Failure(self.M.tie.ConnectionDone()))
+
+    def lose_from_inside(self, where):
+        """The user's callback closes the connection (`conn.disconnect()`) on a transport that delivers
+        connectionLost synchronously (as StringTransportWithDisconnection does): the loss happens INSIDE the callback,
+        while the library is still in the middle of handling the reply / error / timeout / signal."""
+        if self.closed:
+            return
+        self.stat_inside = where
+        self.proto.disconnect()
+        self.lose(self.M.Failure(self.M.tie.ConnectionDone()))
 
     def map_new_serials(self, kind, timed, r, late):
         pc = getattr(self.proto, '_pendingCalls', None) or {}
@@ -436,9 +450,18 @@ class Run:
         def ok(res):
             self.calls[i]['done'].append('ok')
             self.fx.append('ok:%d' % i)
+            if i in self.lose_inside:
+                self.lose_from_inside('reply-callback')
 
         def err(f):
             M = self.M
+            if i in self.lose_inside and not self.closed:
+                kind = 'timeout' if f.check(M.error.TimeOut) else 'remote' if f.check(M.error.RemoteError) else \
+                    'other:' + f.type.__name__
+                self.calls[i]['done'].append(kind)
+                self.fx.append('er:%d:%s' % (i, kind))
+                self.lose_from_inside('timeout-errback' if kind == 'timeout' else 'error-errback')
+                return
             if self.is_loss(f):
                 kind = 'lost'
             elif f.check(M.error.TimeOut):
@@ -764,6 +787,8 @@ class Run:
         return M.message.MethodReturnMessage(serial).rawMessage
 
     def op_reply(self, st):
+        if st.get('lose_inside'):
+            self.lose_inside.add(st['i'])
         data = self.reply_bytes(st['i'], st['ok'])
         part = st.get('part')
         if part == 'head':
@@ -773,7 +798,30 @@ class Run:
             data = data[cut_at(data, st['cut']):]
         self.deliver(data)
 
+    def op_add_match(self, st):
+        """conn.addMatch(callback, ...): an AddMatch call to the bus; the rule is live once it is answered."""
+        def on_signal(msg):
+            self.fx_signal += 1
+            if self.signal_loses:
+                self.lose_from_inside('signal-callback')
+        d = self.proto.addMatch(on_signal, mtype='signal', interface='org.example.Sig')
+        new = self.map_new_serials('user', False, 'n', False)
+        if len(new) != 1:
+            self.unexpected.append('addMatch made %d table entries' % len(new))
+            return
+        self.attach(d, new[0], 'n')
+
+    def op_signal(self, st):
+        M = self.M
+        self.signal_loses = bool(st.get('lose_inside'))
+        before = self.fx_signal
+        self.deliver(M.message.SignalMessage('/org/example/Obj', 'Ping', 'org.example.Sig').rawMessage)
+        if self.fx_signal == before:
+            self.unexpected.append('the signal did not reach the callback registered with addMatch')
+
     def op_expire(self, st):
+        if st.get('lose_inside'):
+            self.lose_inside.add(st['i'])
         mine = [dc for dc, i in self.dc_idx.values() if i == st['i']]
         dc = mine[0] if mine else None
         live = self.reactor.getDelayedCalls()
@@ -930,9 +978,13 @@ def step_tokens(st):
     if op == 'reply':
         if st.get('part') == 'head':
             return []
-        return ['rp:%d:%d' % (st['i'], 1 if st['ok'] else 0)]
+        return ['rp:%d:%d' % (st['i'], 1 if st['ok'] else 0)] + (['cl'] if st.get('lose_inside') else [])
     if op == 'expire':
-        return ['ex:%d' % st['i']]
+        return ['ex:%d' % st['i']] + (['cl'] if st.get('lose_inside') else [])
+    if op == 'add_match':
+        return ['ca:0:n']
+    if op == 'signal':
+        return ['cl'] if st.get('lose_inside') else []
     raise ValueError(op)
 
 
@@ -1284,6 +1336,8 @@ class ReadyGen:
     def __init__(self, rng, extended=False):
         self.rng = rng
         self.extended = extended
+        self.closed = False           # a callback closed the connection: nothing more can be done on it
+        self.p_inside = 0.2
         self.next_serial = 1          # 0 is Hello
         self.next_cb = 0
         self.next_proxy = 0
@@ -1394,15 +1448,21 @@ class ReadyGen:
                 p = self.next_proxy
                 self.next_proxy += 1
                 self.proxies[p] = {'alive': True, 'cbs': []}
+            inside = c['kind'] == 'user' and rng.random() < self.p_inside
+            if inside:
+                self.closed = True
             if rng.random() < 0.3:
                 cut = rng.randrange(1, 1000)
                 return [{'op': 'reply', 'i': i, 'ok': ok, 'part': 'head', 'cut': cut},
-                        {'op': 'reply', 'i': i, 'ok': ok, 'part': 'tail', 'cut': cut}]
-            return [{'op': 'reply', 'i': i, 'ok': ok}]
+                        dict({'op': 'reply', 'i': i, 'ok': ok, 'part': 'tail', 'cut': cut}, **({'lose_inside': True} if inside else {}))]
+            return [dict({'op': 'reply', 'i': i, 'ok': ok}, **({'lose_inside': True} if inside else {}))]
         # expire: only the earliest live timer can fire next
         i = min(timed, key=lambda j: self.pending[j]['deadline'])
         self.now = self.pending[i]['deadline']
         self.pending.pop(i)
+        if rng.random() < self.p_inside:
+            self.closed = True
+            return [{'op': 'expire', 'i': i, 'lose_inside': True}]
         return [{'op': 'expire', 'i': i}]
 
 
@@ -1444,6 +1504,8 @@ def gen_history(rng, tmp, want=None, extended=False):
     if extended or rng.random() < 0.5:
         steps += g.burst()
     for _ in range(rng.choice([0, 1, 2, 4, 6, 8, 10, 14])):
+        if g.closed:
+            break
         steps += g.step()
     return entries, addr, steps
 
@@ -1454,7 +1516,7 @@ def transport_open_after(steps):
     for st in steps:
         if st['op'] == 'ac':
             is_open = True
-        elif st['op'] == 'close' or (st['op'] == 'auth' and 'ax' in st['tok']):
+        elif st['op'] == 'close' or (st['op'] == 'auth' and 'ax' in st['tok']) or st.get('lose_inside'):
             is_open = False
     return is_open
 
@@ -1485,6 +1547,37 @@ def gen_reaction_skeletons(quick):
                     for r in ps:
                         steps.append({'op': 'proxy_notify', 'p': 0, 'r': r})
                     steps.append({'op': 'close', 'reason': 'done'})
+                    entries = [{'kind': 'tcp', 'host': '127.0.0.1', 'port': 1234}]
+                    out.append({'entries': entries, 'address': render_entry(entries[0]), 'steps': steps})
+    # the connection is closed from INSIDE a callback the library is running for a reply, an error reply, a timeout or a
+    # signal, with other calls (timed and not), connection callbacks and proxies in flight
+    for where in ('reply', 'error', 'expire', 'signal'):
+        for victim_timed in (True, False):
+            for explicit in (True, False):
+                for r0 in ['n', 'c', 'x']:
+                    steps = [{'op': 'ac'}, {'op': 'auth', 'hex': (b'OK ' + GUID + b'\r\n').hex(), 'tok': ['ao']},
+                             {'op': 'hello', 'ok': True}, {'op': 'notify', 'r': r0},
+                             {'op': 'call', 'timeout': 20.0 if victim_timed else None, 'r': 'n'},     # 1: the call that is answered
+                             {'op': 'call', 'timeout': 90.0, 'r': 'n'},                                # 2: in flight, timed
+                             {'op': 'call', 'timeout': None, 'r': 'c'}]                                # 3: in flight
+                    serial = 4
+                    if explicit:
+                        steps.append({'op': 'proxy_explicit', 'key': 0, 'form': 'iface'})
+                    else:
+                        steps += [{'op': 'proxy_introspect', 'key': 0, 'form': 'none'}, {'op': 'reply', 'i': serial, 'ok': True}]
+                        serial += 1
+                    steps.append({'op': 'proxy_notify', 'p': 0, 'r': 'n'})
+                    if where == 'reply':
+                        steps.append({'op': 'reply', 'i': 1, 'ok': True, 'lose_inside': True})
+                    elif where == 'error':
+                        steps.append({'op': 'reply', 'i': 1, 'ok': False, 'lose_inside': True})
+                    elif where == 'expire':
+                        if not victim_timed:
+                            continue
+                        steps.append({'op': 'expire', 'i': 1, 'lose_inside': True})
+                    else:
+                        steps += [{'op': 'add_match'}, {'op': 'reply', 'i': serial, 'ok': True},
+                                  {'op': 'signal'}, {'op': 'signal', 'lose_inside': True}]
                     entries = [{'kind': 'tcp', 'host': '127.0.0.1', 'port': 1234}]
                     out.append({'entries': entries, 'address': render_entry(entries[0]), 'steps': steps})
     # two live proxies of the SAME remote object (same bus name, path, interfaces), obtained both ways
@@ -1620,6 +1713,8 @@ def check_scenarios(ctx, M, stream, scenarios, use_model=True):
         ctx.case(stream, sample={'address': sc['address'], 'steps': sc['steps']}, nontrivial=connected)
         ctx.stat('life:len=%d' % min(len(sc['steps']) // 4 * 4, 24))
         ctx.stat('life:end=' + run.phase)
+        if run.stat_inside:
+            ctx.stat('life:loss-inside-' + run.stat_inside)
         if run.at_loss is not None:
             ctx.stat('life:loss-with-calls=%d' % min(len(run.at_loss['outstanding']), 6))
             ctx.stat('life:loss-with-proxies=%d' % min(len(run.at_loss['proxies']), 4))
